@@ -256,6 +256,52 @@ fn parse_req(rq: &str) -> Option<Req> {
     })
 }
 
+/// a writer that gives up after `left` bytes (a fixed-capacity buffer, a closed pipe)
+struct Limited {
+    left: usize,
+}
+impl std::fmt::Write for Limited {
+    fn write_str(&mut self, s: &str) -> std::fmt::Result {
+        if s.len() > self.left {
+            self.left = 0;
+            return Err(std::fmt::Error);
+        }
+        self.left -= s.len();
+        Ok(())
+    }
+}
+
+/// C08 `pre=1`, part 3: the request written to writers that FAIL after 0..=12 bytes (wherever the resolver happens to be:
+/// inside a reference, a term, a variant).  A failed write is over when it returns; it must leave nothing behind.
+fn failing_writes<M: MemoizerKind>(bundle: &RawBundle<FluentResource, M>, rq: &Req) {
+    let msg = match bundle.get_message(&rq.id) {
+        Some(m) => m,
+        None => return,
+    };
+    let pattern = match &rq.attr {
+        None => match msg.value() {
+            Some(p) => p,
+            None => return,
+        },
+        Some(a) => match msg.get_attribute(a) {
+            Some(at) => at.value(),
+            None => return,
+        },
+    };
+    let args: Option<FluentArgs> = rq.args.as_ref().map(|ps| {
+        let mut a = FluentArgs::new();
+        for (k, t) in ps {
+            a.set(k.as_str(), tok_value(t));
+        }
+        a
+    });
+    for cap in 0..=12usize {
+        let mut w = Limited { left: cap };
+        let mut errs = vec![];
+        let _ = bundle.write_pattern(&mut w, pattern, args.as_ref(), &mut errs);
+    }
+}
+
 fn answer<M: MemoizerKind>(
     bundle: &RawBundle<FluentResource, M>,
     rq: &Req,
@@ -569,6 +615,9 @@ fn run_one(payload: &str) -> String {
                 let _ = answer(&b, r, None);
             }
             settings(&mut b, kv(cfg, "iso") == "1", kv(cfg, "tr"), kv(cfg, "fm"));
+            for r in &reqs {
+                failing_writes(&b, r);
+            }
         }
         let mut shared: Option<Vec<FluentError>> = if kv(cfg, "ev") == "shared" { Some(vec![]) } else { None };
         reqs.iter().map(|r| answer(&b, r, shared.as_mut())).collect()
